@@ -26,6 +26,7 @@ LEVEL_TEXT = (
     "(each operand evaluated once, in CPython's order, result built with the denoted operation, same stores), "
     "dispatch is exhaustive over the running interpreter's operator universe, comprehension scopes are restored on "
     "every exit and the shared AST is never mutated"
+    "; subscript reads are ordered against operand evaluation (augmented subscript assignment reads the element before evaluating the right-hand side)"
 )
 LEVEL_NOTE = (
     "trusted: the abstract evaluator's model of Python (cross-validated against compile()+dis for operand order), the "
